@@ -1,20 +1,33 @@
 """
 C03 — documents built from Markdown constructs parse to the tree they were built from.
 
-Exploration: a seeded grammar (harness/gen_tree.py) produces a tree of CommonMark/GFM constructs,
-writes it in one of the spellings the specification allows for that tree, and - independently -
-the HTML the specification assigns to the tree; the implementation's HTML must be equivalent under
-the specification's own test normalisation.
+Theorems (lean/Mistletoe/Props/C03.lean; lemmas in Proofs/Compose.lean), a COMPOSITIONAL result for a fragment of the
+grammar at every nesting depth, by induction over the tree from C14 (inert lines form one paragraph of raw text), C04
+(lines behind a quote marker are one Quote around the parse of the unmarked lines), C05 (blocks separated by a blank line
+are independent) and the dispatch on ATX heading / thematic break lines: for every well-formed forest of paragraphs (1+
+inert lines, 0-3 spaces of indent), ATX headings (any spelling the dispatcher accepts), thematic breaks (any spelling),
+and block quotes of these ("> " or ">"), siblings separated by one empty line,
+  * `C03_block_phase_partial` / `C03_document_partial`: Document(write(tree)) is exactly the tree (line numbers included);
+  * `C03_html_partial`: HtmlRenderer(**opts) on it returns exactly the HTML written directly from the tree, for the token
+    lists regenerated from /repo; `C03_spelling_independent_partial`: two spellings of one tree give the same HTML.
+OUTSIDE the fragment (setext headings, code blocks, lists, tables, HTML blocks, link definitions, every inline construct
+other than text and soft breaks, lazy continuation, interruption without blank line): not proved - explored with the
+tree generator and its independent HTML oracle (all block and inline kinds, depth <= 4, free spellings).
+Units: `doc` (real Document + HtmlRenderer against the model on generated documents) and `c03.theorem`: random forests of
+the fragment are sent to the second driver (lean/PropsMain.lean), which evaluates the theorem's hypothesis `T.oks`, the
+writer and the HTML the theorem concludes; wherever the hypothesis holds, the REAL renderer's output on the written text
+must be that HTML byte for byte.
 """
 import random
 
 import common
+import doc_units
 import gen_tree
 import impl
 import specnorm
 
 ID = 'C03'
-LEVEL = 'exploration'
+EXTRA_MODULES = ['Mistletoe.Proofs.Compose', 'propsdriver']
 RULE = ('trees of up to depth 4 / ~40 blocks (paragraphs, ATX and setext headings, thematic breaks, fenced and indented code, '
         'block quotes, tight and loose bullet/ordered lists, tables, HTML blocks, link definitions; emphasis, strong, '
         'strikethrough, code spans, inline/reference links, images, autolinks, hard and soft breaks, escapes, character '
@@ -25,8 +38,11 @@ RULE = ('trees of up to depth 4 / ~40 blocks (paragraphs, ATX and setext heading
 TRUSTED = ['harness/gen_tree.py (writer and expected-HTML writer) and harness/specnorm.py are the oracle, written from the specification']
 ASSUMPTIONS = ['spellings are restricted to those for which the specification unambiguously denotes the tree (the writer\'s '
                'admissibility rules)']
-PARTIAL = ['interim level: generator-with-oracle exploration. The compositional Lean proof (leaf lemmas + wrap/concatenation '
-           'laws over the parser model) is the planned upgrade']
+PARTIAL = ['proved for the fragment paragraphs / ATX headings / thematic breaks / nested block quotes with inert text (see the '
+           'module docstring); every other construct of the property (setext headings, code blocks, lists, tables, HTML blocks, '
+           'link definitions, emphasis, strong, strikethrough, code spans, links, images, autolinks, hard breaks, escapes, '
+           'character references, raw HTML) and the free spellings outside the fragment are decided by exploration with the tree '
+           'generator and its independent oracle']
 
 
 def opts(seed=0):
@@ -99,8 +115,84 @@ def finding_still_fails(finding):
     return check_witness(finding['witness'])[0]
 
 
+FRAG_WORDS = ['alpha', 'beta', 'a_b_c', 'snake_case', '*', 'x * y', '3.14)', 'a | b', '# no', 'c#', '1986.', '2)x', 'AT&T', '& co', '[open',
+              'end.', '(see p. 3)', 'é', 'naïve', '“q”', '+1', '-x', '= y', '~', 'a<b', '< 3', 'user@', '$5', '50%', 'x^2', 'v1.2.3', 'don\'t',
+              'say "hi"', 'a;b', 'k=v&w=z', '*foo', '_bar']
+
+
+def frag_line(rng):
+    words = [rng.choice(FRAG_WORDS) for _ in range(rng.randint(1, 6))]
+    if not words[0][0].isalnum():
+        words.insert(0, rng.choice(['alpha', 'beta', 'Zed']))
+    return ' '.join(words)
+
+
+def frag_tree(rng, depth):
+    r = rng.random()
+    if r < 0.45 or depth >= 3:
+        return {'k': 'para', 'lines': [' ' * rng.choice([0, 0, 0, 1, 2, 3]) + frag_line(rng) + '\n' for _ in range(rng.randint(1, 3))]}
+    if r < 0.65:
+        lv = rng.randint(1, 6)
+        text = frag_line(rng)
+        line = ' ' * rng.choice([0, 0, 1, 3]) + '#' * lv + ' ' * rng.choice([1, 1, 2, 4]) + text + rng.choice(['', '', ' #', ' ' + '#' * lv, ' ##  ']) + '\n'
+        return {'k': 'heading', 'level': lv, 'text': text, 'line': line}
+    if r < 0.75:
+        return {'k': 'hr', 'line': rng.choice(['***', '---', '___', '- - -', ' * * *', '  _____  ', '*  *  *']) + '\n'}
+    return {'k': 'quote', 'bare': rng.random() < 0.3, 'kids': [frag_tree(rng, depth + 1) for _ in range(rng.randint(1, 3))]}
+
+
+def strip_indent_for_bare(t):
+    """the bare marker '>' is only admissible when no content line begins with a space"""
+    if t['k'] == 'para':
+        t['lines'] = [l.lstrip(' ') for l in t['lines']]
+    elif t['k'] == 'heading':
+        t['line'] = t['line'].lstrip(' ')
+    elif t['k'] == 'hr':
+        t['line'] = t['line'].lstrip(' ')
+    elif t['k'] == 'quote':
+        for k in t['kids']:
+            strip_indent_for_bare(k)
+
+
+def fix_bare(t, under_bare=False):
+    if t['k'] == 'quote':
+        if t['bare'] or under_bare:
+            for k in t['kids']:
+                strip_indent_for_bare(k)
+        for k in t['kids']:
+            fix_bare(k, under_bare or t['bare'])
+
+
 def units(ctx):
-    pass
+    rng = ctx.rng('fragment')
+    forests = []
+    for _ in range(ctx.budget(2500, 25000)):
+        f = [frag_tree(rng, 0) for _ in range(rng.randint(1, 4))]
+        for t in f:
+            fix_bare(t)
+        forests.append(f)
+    opts = [{}, {'html_escape_double_quotes': True}, {'html_escape_single_quotes': True}]
+    reqs = [{'op': 'c03.fragment', 'forest': f, 'dq': bool(opts[i % 3].get('html_escape_double_quotes')),
+             'sq': bool(opts[i % 3].get('html_escape_single_quotes'))} for i, f in enumerate(forests)]
+    res = common.driver_batch(reqs, binary=common.PROPS_DRIVER)
+    n_ok = 0
+    for i, (f, r) in enumerate(zip(forests, res)):
+        if not (isinstance(r, dict) and r.get('ok')):
+            continue
+        n_ok += 1
+        try:
+            real = impl.parse_render('HtmlRenderer', opts[i % 3], r['text'])[1]
+        except Exception as e:
+            real = {'raises': type(e).__name__}
+        ctx.compare('c03.theorem', {'text': r['text'], 'options': opts[i % 3]}, r['html'], real,
+                    kind='depth%d' % max([_depth(t) for t in f]))
+    ctx.notes.append('of %d generated forests of the fragment %d satisfy the theorem hypothesis T.oks' % (len(forests), n_ok))
+    texts = [gen(ctx.seed * 7919 + i)[1] for i in range(ctx.budget(1500, 15000))]
+    doc_units.run(ctx, texts, configs=doc_units.CONFIGS[:3])
+
+
+def _depth(t):
+    return 1 + max([_depth(k) for k in t['kids']], default=0) if t['k'] == 'quote' else 1
 
 
 def explore(ctx, seeds):
